@@ -161,6 +161,7 @@ class World:
 
         def body(rank):
             _tls.rank = rank
+            _tls.world = self
             with self.cv:
                 while self.baton != rank and self.error is None:
                     self.cv.wait()
@@ -214,6 +215,14 @@ class World:
                 self.cv.notify_all()
             for t in threads:
                 t.join(timeout=10)
+        except BaseException as e:
+            # abandoned from outside (e.g. the explorer's time limit): make every rank fail at its next collective
+            with self.cv:
+                if self.error is None:
+                    self.error = Aborted('world abandoned: %r' % (e,))
+                self.baton = None
+                self.cv.notify_all()
+            raise
         finally:
             _world = None
         return self
@@ -226,41 +235,50 @@ def _copy(v):
 
 
 class _Comm:
+    """A rank thread talks to ITS world (thread-local), so that a world that was abandoned (time limit, error)
+    makes its still-running ranks fail at their next collective instead of silently turning serial."""
+
+    def _w(self):
+        return getattr(_tls, 'world', None)
+
     def Get_rank(self):
-        return getattr(_tls, 'rank', 0) if _world is not None else 0
+        return _tls.rank if self._w() is not None else 0
 
     def Get_size(self):
-        return _world.size if _world is not None else 1
-
-    def _serial(self):
-        return _world is None or not hasattr(_tls, 'rank')
+        w = self._w()
+        return w.size if w is not None else 1
 
     def bcast(self, obj, root=0):
-        if self._serial():
+        w = self._w()
+        if w is None:
             return obj
-        return _world.collective('bcast', root, None, _copy(obj) if self.Get_rank() == root else None)
+        return w.collective('bcast', root, None, _copy(obj) if self.Get_rank() == root else None)
 
     def Bcast(self, buf, root=0):
-        if self._serial():
+        w = self._w()
+        if w is None:
             return None
         if isinstance(buf, (list, tuple)):
             buf = buf[0]
-        return _world.collective('Bcast', root, None, np.array(buf, copy=True) if self.Get_rank() == root else None, buf=buf)
+        return w.collective('Bcast', root, None, np.array(buf, copy=True) if self.Get_rank() == root else None, buf=buf)
 
     def allgather(self, obj):
-        if self._serial():
+        w = self._w()
+        if w is None:
             return [obj]
-        return _world.collective('allgather', None, None, _copy(obj))
+        return w.collective('allgather', None, None, _copy(obj))
 
     def allreduce(self, obj, op=SUM):
-        if self._serial():
+        w = self._w()
+        if w is None:
             return obj
-        return _world.collective('allreduce', None, op, _copy(obj))
+        return w.collective('allreduce', None, op, _copy(obj))
 
     def Barrier(self):
-        if self._serial():
+        w = self._w()
+        if w is None:
             return None
-        return _world.collective('barrier', None, None, None)
+        return w.collective('barrier', None, None, None)
 
     barrier = Barrier
 
